@@ -506,6 +506,34 @@ def update_case(rng):
     return case, None
 
 
+def shared_line_case(rng):
+    """LEGACY engine: two different configured patterns match on ONE line and the bump changes the LENGTH of the version (9 -> 10): both
+    occurrences must show the new version and every other byte of the line must stay (C03 / C04 for the legacy rewrite path).  The
+    configured order, the order on the line and the alphabetical order of the pattern texts are all varied."""
+    major, minor, patch = rng.choice([(1, 9, 3), (0, 99, 7), (9, 9, 9), (2, 9, 0)])
+    old = "%d.%d.%d" % (major, minor, patch)
+    flag = rng.choice(["--minor", "--major"]) if major == 9 else "--minor"
+    new = "%d.%d.0" % (major, minor + 1) if flag == "--minor" else "%d.0.0" % (major + 1)
+    pats = rng.sample(["zz=={version}", "/aa/{version}/index.html", "demo-{version}.tar.gz", "v{version}!", "(rel {version})"], 2)
+    left, right = pats if rng.random() < 0.5 else pats[::-1]
+    configured = [left, right] if rng.random() < 0.5 else [right, left]
+    line = "see %s and %s end" % (left.replace("{version}", "%s"), right.replace("{version}", "%s"))
+    case = {"kind": "shared-line", "old": old, "new": new, "patterns": configured, "line": line % (old, old), "flag": flag}
+    with sandbox.Project("c20s") as p:
+        p.write_text("bumpver.toml", '[bumpver]\ncurrent_version = %s\nversion_pattern = "{semver}"\ncommit = false\n[bumpver.file_patterns]\n'
+                     '"bumpver.toml" = [\'current_version = "{version}"\']\n"b.txt" = [%s]\n' % (json.dumps(old), ", ".join(json.dumps(x) for x in configured)))
+        p.write_text("b.txt", "first\n" + line % (old, old) + "\nlast\n")
+        code, out, exc = sandbox.run_cli(["update", "--no-fetch", flag], p.dir)
+        b = p.read_bytes("b.txt").decode("utf-8")
+    case.update(exit=code, exc=exc, b=b)
+    want = "first\n" + line % (new, new) + "\nlast\n"
+    if code != 0:
+        return case, "`bumpver update %s` failed (exit %s %s) on a consistent legacy project" % (flag, code, exc)
+    if b != want:
+        return case, "legacy rewrite of a line with two patterns: b.txt = %r, expected %r" % (b, want)
+    return case, None
+
+
 WITNESSES = {
     "F-C20-dom-short": lambda: (impl.v1_format(impl.v1_info_json(impl.v1_make_info([2020, 1, 10])), "{year}.{month_short}.{dom_short}"),
                                 impl.v1_parse("2020.1.10", "{year}.{month_short}.{dom_short}")),
@@ -580,6 +608,10 @@ def run(chk, driver, tier):
         chk.count("update")
         judge(case, verdict)
 
+    for _ in range(40 if thorough else 8):
+        case, verdict = shared_line_case(rng)
+        chk.count("legacy_shared_line")
+        chk.oracle_case(case, verdict)
     lines = []
     for fid, f in sorted(known.items()):
         got = WITNESSES[fid]() if fid in WITNESSES else None
